@@ -569,6 +569,14 @@ class IH5Group(IH5InnerNode):
         if nodes[-1]._gpath == path:
             raise ValueError("Cannot create group, it already exists!")
 
+        # missing parent groups are created one level at a time, so that each of them
+        # properly replaces a possible deletion marker (just like a direct creation)
+        rel_segs = [seg for seg in nodes[-1]._rel_path(path).split("/") if seg]
+        if len(rel_segs) > 1:
+            pref = nodes[-1]._gpath if nodes[-1]._gpath != "/" else ""
+            parent = self.create_group(f"{pref}/{rel_segs[0]}")
+            return parent.create_group("/".join(rel_segs[1:]))
+
         # remove "deleted" marker, if set at current path in current patch container
         if path in self._files[-1] and _node_is_del_mark(self._files[-1][path]):
             del self._files[-1][path]
